@@ -66,11 +66,11 @@ func VerifH09aExecutionOrder() {
 	multiline := verifrt.Bool("quoted-multiline-argument")
 	var blocks [][]line
 	for b := 0; b < nblocks; b++ {
-		k := verifrt.IntRange("nlines", 0, 3)
+		k := verifrt.IntRange("nlines", 0, 3+verifrt.Tier())
 		var ls []line
 		text += []string{"siteA", "siteB"}[b] + " {" + le
 		for i := 0; i < k; i++ {
-			l := line{dir: verifrt.Choose("dir", len(zzDocumented)), arg: []string{"x", "y", "z"}[i]}
+			l := line{dir: verifrt.Choose("dir", len(zzDocumented)), arg: []string{"x", "y", "z", "w"}[i]}
 			written := l.arg
 			if multiline && i == 0 {
 				l.arg = "p" + le + "q" // the value between the quotes, exactly as written
